@@ -15,6 +15,24 @@ theorem tie_security_kinds : Gen.Gov.securityVotingKinds = ["upgrade", "certifie
 /-- certifier updates are tallied with their own stake-round parameters, everything else with the default -/
 theorem tie_cert_stake_tally : Gen.Gov.certStakeTallyKinds = ["certifierUpdate"] := by decide
 
+/-- the certifier round skips every stored vote whose voter is not a certifier when the round is tallied -/
+theorem tie_security_tally_counts_certifiers_only : Gen.Gov.secTallySkipsUnless = "err != nil || !k.IsCertifier(ctx, voter)" := by decide
+
+/-- **Only certifiers' votes count in the certifier round**: the outcome of `securityTally` is the same whether or not the votes of
+    addresses outside the council are in the store (a certifier removed from the council after voting no longer has a vote). -/
+theorem security_tally_ignores_non_certifiers (g : State) (c : Cert.State) (p : Proposal) :
+    securityTally g c p = securityTally { g with votes := g.votes.filter (fun v => Cert.isCertifier c v.voter) } c p := by
+  have hf : ({ g with votes := g.votes.filter (fun v => Cert.isCertifier c v.voter) } : State).votes.filter
+        (fun v => v.pid == p.id && v.option != 0 && Cert.isCertifier c v.voter) =
+      g.votes.filter (fun v => v.pid == p.id && v.option != 0 && Cert.isCertifier c v.voter) := by
+    show (g.votes.filter (fun v => Cert.isCertifier c v.voter)).filter _ = _
+    rw [List.filter_filter]
+    apply List.filter_congr
+    intro v _
+    cases Cert.isCertifier c v.voter <;> simp
+  unfold securityTally
+  simp only [hf]
+
 theorem routing (kind : String) :
     hasSecurityVoting kind = true ↔ kind = "upgrade" ∨ kind = "certifierUpdate" ∨ kind = "claim" := by
   simp [hasSecurityVoting, tie_security_kinds]
